@@ -533,6 +533,44 @@ impl Scenario for C13 {
                     c[at] ^= 1 << b.rng.below(8);
                     b.push(Step::IdRel { reader: *bk, a: TextRef::Lit { text: format!("k{f}{hdr}{}", b64(&a)) }, b: TextRef::Lit { text: format!("k{f}{hdr}{}", b64(&c)) } });
                 }
+                // ids whose differences cancel when bytes or words are folded together: the same mask in two
+                // bytes at every distance, in three bytes with masks x, y, x^y, and whole words exchanged
+                {
+                    let lit = |x: &[u8]| TextRef::Lit { text: format!("k{f}{hdr}{}", b64(x)) };
+                    for dist in [1usize, 2, 3, 4, 8, 16, 24, 32] {
+                        for i in 0..33 - dist {
+                            let mask = *b.rng.pick(&[1u8, 0x80, 0xff, 0x55]) | (1 << b.rng.below(8)) as u8;
+                            let mut c = a.clone();
+                            c[i] ^= mask;
+                            c[i + dist] ^= mask;
+                            b.push(Step::IdRel { reader: *bk, a: lit(&a), b: lit(&c) });
+                        }
+                    }
+                    for _ in 0..12 {
+                        let (i, w) = (b.rng.usize_below(8), *b.rng.pick(&[8usize, 4, 16]));
+                        let (x, y) = (1 + b.rng.below(255) as u8, 1 + b.rng.below(255) as u8);
+                        let mut c = a.clone();
+                        if i + 2 * w < 33 && x != y {
+                            c[i] ^= x;
+                            c[i + w] ^= y;
+                            c[i + 2 * w] ^= x ^ y;
+                            b.push(Step::IdRel { reader: *bk, a: lit(&a), b: lit(&c) });
+                        }
+                    }
+                    for n in [1usize, 2, 4, 8, 16] {
+                        let mut at = 0;
+                        while at + 2 * n <= 33 {
+                            let mut c = a.clone();
+                            for k in 0..n {
+                                c.swap(at + k, at + n + k);
+                            }
+                            if c != a {
+                                b.push(Step::IdRel { reader: *bk, a: lit(&a), b: lit(&c) });
+                            }
+                            at += n;
+                        }
+                    }
+                }
                 let mut c = a.clone();
                 let at = b.rng.usize_below(33);
                 c[at] ^= 1 << b.rng.below(8);
